@@ -164,7 +164,10 @@ fn fit_event(run: i64, d: &Data, pr: &Params, o: &Outcome) -> Value {
         "X": d.x, "xden": d.xden, "y": d.y, "ylen": d.y.len(), "xexp": d.xexp, "yexp": d.yexp, "aexp": pr.aexp,
         "yoff": d.yoff, "entry": if pr.api { "api" } else { "inherent" },
         "aN": pr.an, "aE": pr.ae, "l1N": pr.l1n, "l1E": pr.l1e, "normalize": pr.normalize,
-        "tolSgn": pr.tol_sgn, "tolE": pr.tol_e, "maxIter": pr.max_iter,
+        "tolSgn": pr.tol_sgn, "tolE": pr.tol_e,
+        // usize::MAX does not fit the specification's 32-bit integers: the value is clamped at
+        // 2^30 for the event, the class says which promise applies
+        "maxIter": pr.max_iter.min(1 << 30), "maxIterClass": if pr.max_iter == 0 { "zero" } else if pr.max_iter < 1000 { "tiny" } else if pr.max_iter == 1000 { "default" } else { "huge" },
         "status": o.status, "fin": fin, "q": q})
 }
 
@@ -452,6 +455,19 @@ fn gen(path: &str) {
             out.emit(fit_event(run, &d, &pr, &o));
         }
     }
+    // ---- iteration limits other than the default: huge ones (a valid way of saying
+    // "unbounded") promise what the default promises, tiny ones only "returns or Err"
+    let limits: [usize; 5] = [1, 2, 1_000_000, usize::MAX / 2, usize::MAX];
+    for i in 0..(if thorough { 60 } else { 20 }) {
+        run += 1;
+        let d = gen_data(&mut rng, false);
+        let mut pr = gen_params(&mut rng, if i % 2 == 0 { "lasso" } else { "enet" });
+        pr.max_iter = limits[i % 5];
+        pr.api = i % 3 == 0;
+        let o = run_fit(&d, &pr);
+        bump(o.status);
+        out.emit(fit_event(run, &d, &pr, &o));
+    }
     // ---- size ladder: row counts around internal block sizes (small entries keep the
     // specification's 32-bit sums in range)
     let ladder: &[usize] = if thorough { &[63, 64, 65, 127, 128, 129, 255, 256, 257, 511, 512, 513] } else { &[63, 64, 65, 255, 256, 257] };
@@ -560,7 +576,10 @@ fn replay_file(input: &str, path: &str) {
             normalize: e["normalize"].as_bool().unwrap(),
             tol_sgn: e["tolSgn"].as_i64().unwrap(),
             tol_e: e["tolE"].as_u64().unwrap() as u32,
-            max_iter: e["maxIter"].as_u64().unwrap() as usize,
+            max_iter: match e["maxIterClass"].as_str() {
+                Some("huge") if e["maxIter"].as_u64().unwrap() >= 1 << 30 => usize::MAX,
+                _ => e["maxIter"].as_u64().unwrap() as usize,
+            },
             aexp: e["aexp"].as_i64().unwrap_or(0) as i32,
             api: e["entry"] == "api",
         };
